@@ -14,6 +14,19 @@ CHECKS = {
         ref="4/C18"),
 }
 
+CHECKS["C04"] = dict(
+    text="Bounded symbolic model checking of the COO accumulator (coo_append, coo_sum_duplicates, merge_sum_duplicates, merge_all_sum_duplicates, coo_increase_mem) driven as the numba_build_* drivers do: for every sequence of K appends with symbolic keys and positive real values, every buffer capacity in the grid and the sort threshold lowered so that every threshold (sort, merge, growth) is crossed within the bound, each key ends up stored exactly once with the sum of its values and its own row/col.",
+    note="Bounds: capacity 4..8 (12 thorough), COO_QUICKSORT_LIMIT lowered to 2..4, K <= 6 (8), 2-3 distinct keys; float32 summation order outside (Real arithmetic). Schedule / chunking / buffer-sizing clauses: see evidence 'uncovered' until their harness groups are added.",
+    ref="4/C04")
+CHECKS["C03"] = dict(
+    text="Bounded symbolic model checking of the real numba_build_skip_grams + window_at_index + flat/harmonic/geometric kernels + accumulator against a reference written from the statement: for all token sequences within the bound, all per-token radii, offsets, kernel-normalisation flags, geometric powers and positive mix weights the stored cells equal the windowed kernel-weighted count, stay inside their window's column block and never cross a document boundary; 'before' is the transpose of 'after' for equal fixed radii.",
+    note="Bounds: <= 3-4 tokens in <= 3 documents, vocabulary 2-3, radius <= 2-3, <= 2 windows. Real arithmetic (float32 accumulation outside).",
+    ref="4/C03")
+CHECKS["C09"] = dict(
+    text="Bounded symbolic model checking of the BPE kernels and of BytePairEncodingVectorizer end to end on strings of unconstrained code points: contraction is lossless for every code array up to the length bound (lengths 0 and 1 included), both contraction kernels agree, every encoding returned by fit_transform and transform decodes to its string (characters above max_char_code_ -> 0), transform(train) == fit_transform, tokens are concatenations of their pairs, the vocabulary budget is respected, 'tokens' and 'matrix' outputs are views of the 'sequences' output with the fitted width.",
+    note="Bounds: code arrays <= 4 (7 thorough); corpora of total <= 6-7 characters, max_vocab_size <= 3, min_token_occurrence <= 2. uint32 wrap of the declared locals outside.",
+    ref="4/C09")
+
 NOT_YET = {}
 
 
